@@ -21,6 +21,7 @@ import ALV.Lemmas.C07Zero
 import ALV.Lemmas.C07SpecFn
 import ALV.Lemmas.C07Order
 import ALV.Lemmas.C07Erase
+import ALV.Lemmas.C07Src
 import Mathlib.Data.Complex.Basic
 import ALV.Common.Audit
 
@@ -1075,6 +1076,69 @@ example : num Complex.I (PyNum.cplx 1 (-1) true * PyNum.frac (2 / 3)) = num Comp
   (num_hom Complex.I_mul_I _ _ 0 .int).2.2.1
 
 end Examples
+
+/-! ## 13. the model IS the source: definitions regenerated from `lazy_poly.py` on every check
+
+`ALV.Gen.C07.py_*` are written by the translator `harness/props/c07_tr.py` from the method bodies of `Poly` / `PolyMeta`
+as the source under test has them NOW.  Each theorem below identifies one of them with the hand-written model function
+that all the theorems of sections 9–12 (and, through the erasure, 1–8) are about.  An edit of the source that changes the
+meaning of a method changes the regenerated definition, and the corresponding equation stops being provable. -/
+section Source
+open ALV.Gen.C07
+
+/-- `Poly.__init__` for each kind of `data` (list / dict / Poly / None / number), `zero` given or `None`, including the
+    "Compact zeros" loop against the instance's own zero -/
+theorem src_init_is_model :
+    (∀ ps z, py_init (.dict ps) z = ofDictZ ps z) ∧ (∀ cs z, py_init (.list cs) z = ofListZ cs z) ∧
+    (∀ c z, py_init (.num c) z = ofNumZ c z) ∧ (∀ z, py_init .none z = ofNoneZ z) ∧
+    (∀ p z, py_init (.poly p) z = ofPolyZ p z) :=
+  ⟨Src.init_dict, Src.init_list, Src.init_num, Src.init_none, Src.init_poly⟩
+
+theorem src_zero_is_model : py_zero = ZPoly.zero := rfl
+
+/-- the `zero` setter: TypeError on a hashed instance, otherwise compaction against the new zero -/
+theorem src_zero_set_is_model (h : Bool) (p : ZPoly) (z : PyVal) :
+    py_zero_set h p z = if h then .error .type else .ok (setZeroZ p z) := Src.zero_set h p z
+
+theorem src_len_is_model (p : ZPoly) : py_len p = p.data.length := rfl
+
+theorem src_getitem_is_model : py_getitem = getZ := by funext p k; exact Src.getitem p k
+
+theorem src_setitem_is_model (h : Bool) (p : ZPoly) (k : Int) (c : PyNum) :
+    py_setitem h p k c = if h then .error .type else .ok (setItemZ p k c) := Src.setitem h p k c
+
+theorem src_copy_is_model : py_copy = copyZ := by funext p z; exact Src.copy p z
+theorem src_diff_is_model : py_diff = diffZ := by funext p n; exact Src.diff p n
+theorem src_integrate_is_model : py_integrate = integrateZ := by funext p; exact Src.integrate p
+
+/-- `PolyMeta.__unary__` with `operator.neg` / `operator.pos` -/
+theorem src_unary_is_model : py_neg = negZ ∧ py_unary PyNum.pos = posZ :=
+  ⟨by funext p; exact Src.unary_neg p, by funext p; exact Src.unary_pos p⟩
+
+/-- `PolyMeta.__rbinary__`: `c + p`, `c - p`, `c * p` wrap the number with `zero=p.zero` -/
+theorem src_rbinary_is_model (p : ZPoly) (c : PyNum) :
+    py_rbinary py_add p c = scalZ .radds p c ∧ py_rbinary py_sub p c = scalZ .rsubs p c ∧
+    py_rbinary py_mul p c = scalZ .rmuls p c := ⟨Src.radd p c, Src.rsub p c, Src.rmul p c⟩
+
+theorem src_operators_is_model : operators = ["+", "-", "*", "pow", "truediv", "eq", "ne"] := by decide
+
+theorem src_add_is_model : py_add = addZ := by funext p q; exact Src.add p q
+theorem src_sub_is_model : py_sub = subZ := by funext p q; exact Src.sub p q
+theorem src_mul_is_model : py_mul = mulZ := by funext p q; exact Src.mul p q
+
+/-- `p + c`, `p - c`, `p * c`: the number is wrapped as `Poly(c)` — with the DEFAULT zero -/
+theorem src_scalar_is_model (p : ZPoly) (c : PyNum) :
+    py_add_num p c = scalZ .adds p c ∧ py_sub_num p c = scalZ .subs p c ∧ py_mul_num p c = scalZ .muls p c :=
+  ⟨Src.add_num p c, Src.sub_num p c, Src.mul_num p c⟩
+
+theorem src_eq_is_model : py_eq = eqZ := rfl
+theorem src_eq_num_is_model : py_eq_num = eqsZ := by funext p c; exact Src.eq_num p c
+theorem src_ne_is_model : py_ne = neZ := rfl
+
+theorem src_truediv_is_model : py_truediv = divZ := by funext p q; exact Src.truediv p q
+theorem src_truediv_num_is_model : py_truediv_num = divsZ := by funext p c; exact Src.truediv_num p c
+
+end Source
 
 end ALV.Props.C07
 
